@@ -21,8 +21,12 @@ CLAIMED = {
   "contract-based deductive verification (govc VC generation over go/ssa, z3/cvc5)", "DESIGN.md §6 C04"),
  "C01": ("proof",
   "Contract proof over the real SSA with ghost call logs (authenticator calls, pipeline steps, condition evaluations, CEL evaluations, error handlers, SetPipelineError): ruleImpl.Execute returns nil error only if an authenticator produced a subject and every configured step of both composites ran and returned nil or is continue-on-error, or a non-nil pipeline error was recorded on the context last; conditional steps run exactly when their condition is true, are skipped when false and fail when the condition cannot be evaluated (CEL runtime errors are passed through, never turned into 'false'); every error handler implementation that reports success has recorded a non-nil pipeline error; the executor runs a rule only if the repository returned one. Unbounded in pipeline length and outcome vectors.",
-  "Composition lemma (pen and paper, DESIGN.md): rule-level contract + Finalize contracts + handler contract => positive answer only after a completed pipeline. Handler/Finalize/recovery contracts are being added; until then the entry points are outside the claimed set. Trusted: cel-go Program.Eval spec, errors.Is axioms, Go dynamic dispatch for logged interface calls.",
+  "The three entry points are under contract too: service.handler.ServeHTTP finalizes only when Execute returned no error and sends every error to the error handler; decision/proxy/Envoy Finalize write the accepted status / forward / build the OK response only when no pipeline error is recorded. Composition lemma (pen and paper, DESIGN.md): rule-level contract + Finalize contracts + handler contract => positive answer only after a completed pipeline; the link between a logged ctx.SetPipelineError call and the concrete context field is Go dynamic dispatch (trusted). Not yet under contract: the panic recovery middleware. Trusted: cel-go Program.Eval spec, errors.Is axioms, Go dynamic dispatch for logged interface calls.",
   "contract-based deductive verification (govc VC generation over go/ssa, z3/cvc5)", "DESIGN.md §6 C01"),
+ "C12": ("proof",
+  "Contract proof over the real SSA of both error translators against one classification function written from the property (authentication, authorization, communication|timeout, precondition, no-rule, redirect, else internal, in that order): HTTP errorHandler.HandleError writes exactly one status, the code captured by the handler configured for that class; defaults are proved to be 401/403/502/400/404/500 and each With*Code option to install exactly the configured code; the per-class writer calls WriteHeader once with its code and sends body/Content-Type only when verbose. The Envoy interceptor returns a denied response whose HTTP status is the code captured for the same class (same order), never an OK response on the error path. A failed upstream exchange in proxy mode is recorded as a communication error. Function values stored in option structs are resolved by a whole-program closed-world scan; captured variables by an effectively-final check.",
+  "Not covered: redirect/www-authenticate header emission (Location, WWW-Authenticate - see DESIGN.md, candidate finding), content negotiation (contenttype library) and the body format; the agreement of the two translators follows from both being proved against the same classification and the same default/override facts (stated in DESIGN.md, not a machine-checked lemma). Trusted: errorchain builder spec (functional abstraction), errors.Is axioms, net/http ResponseWriter spec.",
+  "contract-based deductive verification (govc VC generation over go/ssa, z3/cvc5)", "DESIGN.md §6 C12"),
 }
 NOT_APPLICABLE = {
  "C20": "no contract within reach expresses or decides it: the behaviour lives in reflection-driven third-party code (koanf, mapstructure, yaml, jsonschema) and recursive any-typed merges; see DESIGN.md §6 C20",
